@@ -15,6 +15,16 @@ FromJBop(o) ==
     CASE o.o = "join" -> JoinOp(o.p, SeqSet(o.common))
       [] OTHER -> [o |-> o.o]
 
+\* does the projected REAL tree contain a join node whose common columns were never resolved?
+\* (such a node can only come from a defect; it makes the tree ill-formed)
+RECURSIVE UnresJ(_)
+UnresJ(t) ==
+    CASE t.k = "bin"  -> (t.op.o = "join" /\ Has(t.op, "unres") /\ t.op.unres) \/ UnresJ(t.l) \/ UnresJ(t.r)
+      [] t.k = "un"   -> UnresJ(t.t)
+      [] t.k \in {"xfer", "mat"} -> UnresJ(t.t)
+      [] t.k = "sel"  -> UnresJ(t.skip) \/ UnresJ(t.t)
+      [] OTHER -> FALSE
+
 RECURSIVE FromJTree(_)
 FromJTree(t) ==
     CASE t.k = "leaf" ->
